@@ -80,6 +80,10 @@ func runC04(r *engine.Run) {
 	r.Rule("DOM-merge", "see C03: a stale child is never merged (its nodes refer to nodes a sibling replaced; after the save the root has missing nodes)")
 	r.Rule("LOCK-mpt", "see C16: root, the stores' maps and level links and the collector's maps are accessed only with their owner's mutex held in the required mode (a writer under the read lock, or on a root read outside the lock, loses another writer's update)")
 	r.Rule("ORDER-critical", "see C16: Insert, Delete, MergeChanges and MergeDB are one critical section each, from the first read of the root to its last update")
+	r.Rule("AGREE-snapshot", "see C03: root, changes, deletes and start root handed to the merge come from one GetChanges call")
+	r.Rule("CLONE-deep", "see C07: Clone() of every node type is a deep copy (the codec round trip), never a value that shares path/key/value memory with the receiver - FRESH-node treats Clone() results as fresh, and an in-place append onto a shallow copy writes into the store's object")
+	r.Rule("WHO-deadlist", "see C05: a node that goes through the change collector is never also parked in deleteNodes, the dead list nothing reconciles (re-created later in the round it would still be reported dead, and the prune would delete a node a saved root uses)")
+	r.Rule("AGREE-split", "see C02: wherever the trie builds a leaf, its position prefix and its remaining path are cut from the same slice at the same point (prefix + path = the key): the prefix is part of the hash pre-image, so two entries with equal suffix and value but a wrong prefix collapse into one stored node, and deleting one of them records the other's node dead")
 	r.NotDec = append(r.NotDec, "completeness of the change set for every history (needs the map semantics of C01)", "RocksDB's own crash behaviour")
 	whoCollect(r)
 	orderKeySave(r)
@@ -94,6 +98,10 @@ func runC04(r *engine.Run) {
 	orderStamp(r, "ORDER-stamp")
 	domMerge(r)
 	mptLockDiscipline(r)
+	agreeMergeSnapshot(r, "AGREE-snapshot")
+	cloneDeep(r)
+	whoDeadList(r, "WHO-deadlist")
+	agreeSplit(r)
 }
 
 func whoCollect(r *engine.Run) {
